@@ -5,6 +5,7 @@ import re
 
 from ..core import (AnalysisError, assigned_targets, phase_helpers, split_assign, body_nodes, call_name, dotted, is_self_attr, key_text, kwarg,
                     params, parent, stmts_of, unparse)
+from ..pattern import find, pmatch
 from ..own import BENIGN_INPLACE, OWN_LISTS, FuncInfo, Own, join
 
 NPC = 'tenpy/linalg/np_conserved.py'
@@ -565,6 +566,44 @@ def check_attr_alias_writes(prog, rep, modules):
     return n
 
 
+def check_list_args_copied(prog, rep):
+    """MPO/MPS keep per-bond bookkeeping lists (IdL, IdR, form, ...) that in-place methods update
+    element-wise (sort_legcharges writes self.IdL[b]). A constructor helper that parses such an
+    argument must hand back a list of its own on every path: a parameter may only be returned after
+    it was re-bound to a fresh list (list(p), [..] * n, slice copy)."""
+    from ..cfg import CFG
+    n = 0
+    for rel, qual in ((MPO, 'MPO._get_Id'), ):
+        m = prog.module(rel)
+        f = m.func(qual)
+        pm = set(params(f)) - {'self', 'cls'}
+        cfg = CFG(f)
+        for r in [st for st in ast.walk(f) if isinstance(st, ast.Return) and st.value is not None]:
+            v = r.value
+            n += 1
+            fresh = not isinstance(v, ast.Name)
+            if isinstance(v, ast.Name) and v.id in pm:
+                def rebound(nd, nm=v.id):
+                    s2 = nd.stmt
+                    if not isinstance(s2, ast.Assign) or unparse(s2.targets[0]) != nm:
+                        return False
+                    val = s2.value
+                    return bool(pmatch('list($$x)', val) or pmatch('$$x[:]', val) or
+                                pmatch('$$x.copy()', val) or isinstance(val, (ast.List,
+                                                                             ast.ListComp)) or
+                                (isinstance(val, ast.BinOp) and isinstance(val.op, ast.Mult)))
+                fresh = cfg.dominators_like_before(r, rebound)
+            rep.instance('OWN-list-arg', {'function': qual, 'return': key_text(r), 'fresh': fresh})
+            if not fresh:
+                rep.violation('OWN-list-arg', m, qual, 'returns-argument:' + unparse(v),
+                              '`%s` can hand back the caller\'s own list: the MPO then shares its '
+                              'identity-index list with whoever passed it (e.g. H and H.dagger()), '
+                              'and the element-wise updates of sort_legcharges() on one of them '
+                              'change the other' % key_text(r), r.lineno)
+    if n < 2:
+        raise AnalysisError('OWN-list-arg: returns of MPO._get_Id not found')
+
+
 def check_network_copies(prog, rep):
     """MPS/MPO constructors and copy() store copies of the tensors"""
     for rel, qual, attr in ((MPS, 'MPS.__init__', '_B'), (MPS, 'MPS.copy', '_B'),
@@ -666,6 +705,7 @@ def run(prog, rep, tier):
     check_network_copies(prog, rep)
     check_borrowed(prog, rep)
     check_attr_alias_writes(prog, rep, modules)
+    check_list_args_copied(prog, rep)
     if check_param_icall(prog, rep, inplace) < 2:
         raise AnalysisError('OWN-param-icall: the confirmed instances were not found')
     rep.floor('OWN-write', 150)
